@@ -130,3 +130,7 @@ def run(chk):
     chk.assumptions += ["capacity < 2^31 - 1 (the read result is a pint)", "POSIX shm objects are zero-filled at creation and MAP_SHARED is coherent (trusted)",
                         "concurrent atomicity relies on C07's lock (p_shm_lock brackets every operation: checked by the translator)"]
     return chk.finish()
+
+
+def replay_family(cfg):
+    return diffrun.Family("sb", pv.build_harness("sb", cfg, ["sb.c"], san="asan"))
